@@ -2,7 +2,10 @@ package main
 
 import (
 	"go/types"
+	"os"
+	"path/filepath"
 	"reflect"
+	"strings"
 
 	"verif/engine/sym"
 	"verif/engine/vrt"
@@ -66,4 +69,19 @@ func configureEngine(e *sym.Engine) {
 	e.Natives["go/types.TypeString"] = types.TypeString
 	e.Natives["go/types.Universe"] = reflect.ValueOf(&types.Universe)
 	e.Whitelist["path.Ext"] = true
+}
+
+// inPkgOverlay maps in-package harness support files (accessors for unexported kernels) into /repo.
+func inPkgOverlay() map[string]string {
+	m := map[string]string{}
+	root := filepath.Join(verifDir, "harness/inpkg")
+	filepath.Walk(root, func(p string, info os.FileInfo, err error) error {
+		if err != nil || info.IsDir() || !strings.HasSuffix(p, ".go") {
+			return nil
+		}
+		rel, _ := filepath.Rel(root, p)
+		m[filepath.Join(repoDir, "pkg", rel)] = p
+		return nil
+	})
+	return m
 }
